@@ -43,6 +43,7 @@ def ref_cfg(cfg):
                      'compute_method': 'eigen',
                      'compute_eigenvalue_outer_product': False},
             'loss_mult': cfg.get('loss_mult', 1.0),
+            **({'scale': float(cfg['scale'])} if cfg.get('scale') else {}),
             'sgd_lr': cfg.get('sgd_lr', 0.05),
             'history': [op for op in cfg['history']
                         if op[0] in ('train', 'ckpt')]}
@@ -92,6 +93,9 @@ class GptRun:
         from kfac.gpt_neox.preconditioner import GPTNeoXKFACPreconditioner
 
         kw = K.kfac_kwargs(self.cfg)
+        if self.cfg.get('scale'):
+            sc = float(self.cfg['scale'])
+            kw['grad_scaler'] = lambda: sc
         if self.tmpdir:
             kw['factor_checkpoint_dir'] = self.tmpdir
         import warnings
@@ -194,8 +198,13 @@ class GptRun:
         else:
             loss = R.loss_fn(out, d, self.it, 0, cfg.get('seed', 0))
         loss = loss * cfg.get('loss_mult', 1.0)
+        if cfg.get('scale'):
+            loss = loss * float(cfg['scale'])    # AMP loss scaling
         loss.backward()
         params = [p for p in self.model.parameters() if p.grad is not None]
+        if cfg.get('scale'):
+            for p in params:
+                p.grad.div_(float(cfg['scale']))
         if self.dp > 1:
             flat = torch.cat([p.grad.reshape(-1) for p in params])
             old = self.world.tag[self.rank]
